@@ -305,6 +305,36 @@ class SpecEnv:
             # number of calls of the named contract on this path (syntactic path ghost; callee-side only)
             n = self._str(a[0])
             return z3.IntVal(int(self.ghost.get("$calls:" + n, 0)))
+        if f == "call_before":
+            # on this path every call of contract a precedes every call of contract b (syntactic path ghost)
+            seq = list(self.ghost.get("$callseq", ()))
+            na, nb = self._str(a[0]), self._str(a[1])
+            ia = [i for i, n in enumerate(seq) if n == na]
+            ib = [i for i, n in enumerate(seq) if n == nb]
+            return z3.BoolVal((not ia) or (not ib) or max(ia) < min(ib))
+        if f in ("set_add", "set_remove"):
+            sv = as_v(self.ev(a[0]))
+            x = as_v(self.ev(a[1]))
+            o = self.old.get("$smem")
+            return self.cur.get("$smem") == z3.Store(o, sv, z3.Store(z3.Select(o, sv), x, z3.BoolVal(f == "set_add")))
+        if f == "lt":
+            from .exprs import PY_LT
+            return PY_LT(as_v(self.ev(a[0])), as_v(self.ev(a[1])))
+        if f == "lt_transitive":
+            from .exprs import PY_LT
+            x, y, w = [z3.Const(fresh_name(n), V) for n in ("x!lt", "y!lt", "w!lt")]
+            return z3.And(smt.forall([x, y, w], z3.Implies(z3.And(PY_LT(x, y), PY_LT(y, w)), PY_LT(x, w)),
+                                    patterns=[z3.MultiPattern(PY_LT(x, y), PY_LT(y, w))]),
+                          smt.forall([x], z3.Not(PY_LT(x, x)), patterns=[PY_LT(x, x)]),
+                          # total (strict weak) order: incomparability is transitive
+                          smt.forall([x, y, w], z3.Implies(z3.And(z3.Not(PY_LT(x, y)), z3.Not(PY_LT(y, w))), z3.Not(PY_LT(x, w))),
+                                     patterns=[z3.MultiPattern(PY_LT(x, y), PY_LT(y, w)), z3.MultiPattern(PY_LT(x, y), PY_LT(x, w)),
+                                               z3.MultiPattern(PY_LT(y, w), PY_LT(x, w))]))
+        if f == "seen":
+            k = [g for g in self.ghost if g.startswith("_seen")]
+            if not k:
+                raise SpecError("seen() outside a set loop")
+            return z3.Select(self.ghost[sorted(k)[-1]], as_v(self.ev(a[0])))
         if f == "same_heap":
             r = self.cur.same_as(self.old)
             if r is None:
@@ -337,7 +367,7 @@ class SpecEnv:
             x = z3.Const(fresh_name("x!only"), V)
             for fn_ in a[1:]:
                 n = self._str(fn_)
-                cs.append(z3.ForAll([x], z3.Implies(x != o, z3.Select(self.cur.get(n), x) == z3.Select(self.old.get(n), x)),
+                cs.append(smt.forall([x], z3.Implies(x != o, z3.Select(self.cur.get(n), x) == z3.Select(self.old.get(n), x)),
                                     patterns=[z3.Select(self.cur.get(n), x)]))
             return z3.And(*cs)
         if f == "opt":
@@ -416,5 +446,5 @@ class SpecEnv:
             guard = z3.And(guard, as_bool(sub.ev(cond)))
         body = as_bool(sub.ev(gen.elt))
         if kind == "all":
-            return z3.ForAll([bv], z3.Implies(guard, body))
+            return smt.forall([bv], z3.Implies(guard, body))
         return z3.Exists([bv], z3.And(guard, body))
